@@ -7,6 +7,9 @@
             3 = (nonzero, &ref_a2, eq)     ref_a2 is a different object that eq() declares equal to ref_a
             4 = (nonzero_too, &ref_a, eq)  a different function with the same meaning
             5 = (nonzero, &ref_a, NULL)    no eq function
+            6 = (b_nonzero, &ref_a, eq)    a different function that tests b, with an argument that eq()
+                                           declares equal to condition 1's: must NOT be treated as the same
+                                           condition
      deadline d = D1, p = past;  note N = fresh (notified by an 'N' op), x = already notified
    Other operations
      (a trailing 'z' makes the waiter end its own section with nsync_mu_unlock_without_wakeup)
@@ -69,9 +72,10 @@ MC_ORACLE static void cond_check (void) {
 }
 static int nonzero (const void *v) { cond_check (); return *((const struct cref *) v)->p != 0; }
 static int nonzero_too (const void *v) { cond_check (); return *((const struct cref *) v)->p != 0; }
+static int b_nonzero (const void *v) { (void) v; cond_check (); return val[1] != 0; }
 static int ref_eq (const void *x, const void *y) { return ((const struct cref *) x)->p == ((const struct cref *) y)->p; }
 
-static int is_waiter (const char *o) { return o[0] == 'M' && (o[1] == 'w' || o[1] == 'r') && o[2] >= '1' && o[2] <= '5'; }
+static int is_waiter (const char *o) { return o[0] == 'M' && (o[1] == 'w' || o[1] == 'r') && o[2] >= '1' && o[2] <= '6'; }
 static int mw_setup (const char *program) {
 	int t, k, n = h_parse (program), fresh = 0, notifier = 0;
 	if (n < 1) return -1;
@@ -149,10 +153,10 @@ static void write_section (void) { int v; mc_point (); v = datum; datum = v + 1;
 static void read_section (void) { int v1 = datum, v2; mc_point (); v2 = datum; mc_assert (v1 == v2, "reader saw the datum change inside its read section"); }
 
 static int do_wait (int slot, const char *o) {
-	int reader = (o[1] == 'r'), c = o[2] - '0', var = (c == 2) ? 1 : 0, r, n;
+	int reader = (o[1] == 'r'), c = o[2] - '0', var = (c == 2 || c == 6) ? 1 : 0, r, n;
 	const char *p = o + 3;
 	int64_t dl = MC_NEVER; nsync_note note = NULL;
-	int (*f) (const void *) = (c == 4) ? &nonzero_too : &nonzero;
+	int (*f) (const void *) = (c == 4) ? &nonzero_too : (c == 6) ? &b_nonzero : &nonzero;
 	const void *arg = (c == 2) ? (const void *) &ref_b : (c == 3) ? (const void *) &ref_a2 : (const void *) &ref_a;
 	int (*eq) (const void *, const void *) = (c == 5) ? NULL : &ref_eq;
 	if (*p == 'd') { dl = H_D1; p++; } else if (*p == 'p') { dl = H_PAST; p++; }
